@@ -249,6 +249,12 @@ def _check(case):
     pP = sd.Paths(PP, spec, start, 0, N - 1)
     if method == "stacked_time" and log and _collapsed(spec, pP, dev):
         return {"labels": ["collapsed_pseudo_solution"], "nontrivial": False}
+    if method == "stacked_time" and log:
+        # a frame that collapsed and whose later periods were overwritten by the next frame leaves its trace only in the
+        # endogenized shock of its first period: tens of log units where the drawn shocks are at most 2
+        for (_, _, shock, ts, _) in pairs:
+            if abs(float(np.nan_to_num(pP.get(pre + shn[shock], ts)))) > 8.0:
+                return {"labels": ["collapsed_pseudo_solution"], "nontrivial": False}
     scale = 1.0 + max(float(np.max(np.abs(np.log(pT.arr(nm)) if log else pT.arr(nm)))) for nm in spec["names"])
     # 1. exogenized points are hit
     for (var, tt, _, _, _) in pairs:
